@@ -2,6 +2,7 @@
  * outside this unit's reach (see spec.h and unit.json "assumptions"). */
 #include "spec.h"
 uint64_t g_head, g_np, g_preds[NPMAX], g_akey; ANODE *g_anode;
+uint64_t g_has_body, g_body, g_nbp, g_bp[1]; uint32_t g_body_cp; uint64_t g_body_pre; uint8_t g_body_pre_set;
 uint32_t g_mode; /* 0: visit(cycle), 1: visit(vertex) */
 uint32_t g_epoch, g_phase, g_ext_n, g_ref_n, g_leq_n, g_cp_n, g_setpre_n;
 uint64_t g_cur, g_first, g_pre_tab, g_fix, g_last_ref, g_leq_a, g_leq_b;
@@ -17,6 +18,7 @@ uint64_t _ZNK2GVanERKS_(GV *a, GV *b){ return MEET(a->f0, b->f0); }
 unsigned char _ZNK2GVleERKS_(GV *a, GV *b){
   unsigned char r; r = r & 1;
   __CPROVER_assert(g_phase <= 1, "no inclusion test after the descending sequence ended");
+  if (g_has_body) __CPROVER_assert(g_body_cp == g_cp_n, "every pass over the head is followed by exactly one pass over the components of the cycle before the test");
   if (g_phase == 0) {
     __CPROVER_assert(a->f0 == fold_all(g_epoch), "ascending: the fixpoint test's left operand is the join of the current posts of ALL predecessors of the head");
     __CPROVER_assert(b->f0 == g_cur, "ascending: the fixpoint test's right operand is the value the last pass was computed from");
@@ -35,12 +37,20 @@ uint64_t _ZNK4ikos33interleaved_fwd_fixpoint_iteratorI4TCFG2GVE8get_postEm(IT *i
 uint64_t _ZNK4ikos33interleaved_fwd_fixpoint_iteratorI4TCFG2GVE7get_preEm(IT *it, uint64_t l){
   return (l == g_head && g_pre_tab_set) ? g_pre_tab : PRE0(l); }
 void _ZN4ikos33interleaved_fwd_fixpoint_iteratorI4TCFG2GVE7set_preEmRKS2_(IT *it, uint64_t l, GV *v){
-  __CPROVER_assert(l == g_head, "pre-invariants are stored for the block being visited only (cycle with an empty body / single vertex)");
+  if (g_has_body && l == g_body && l != g_head) { g_body_pre = v->f0; g_body_pre_set = 1; return; }
+  __CPROVER_assert(l == g_head, "pre-invariants are stored for the blocks being visited only");
   g_pre_tab = v->f0; g_pre_tab_set = 1; g_setpre_n++; }
 void _ZN4ikos33interleaved_fwd_fixpoint_iteratorI4TCFG2GVE8set_postEmOS2_(IT *it, uint64_t l, GV *v){ }
 /* ---- ASSUMED: compute_post(node, inv) = set_post(node, analyze(node, inv)); one call = the head iterated once */
 void _ZN4ikos38interleaved_fwd_fixpoint_iterator_impl12wto_iteratorI4TCFG2GVE12compute_postEmS3_(WI *wi, uint64_t node, uint64_t inv){
+  if (g_has_body && node == g_body && node != g_head) {
+    __CPROVER_assert(g_body_cp + 1 == g_cp_n, "the components of the cycle are analysed once per pass, after the head");
+    uint64_t want = fold_body(g_epoch);
+    if (wi->f4 != 0 && AMAP_COUNT(wi->f4) != 0 && g_akey == node && g_anode != 0) want = MEET(want, ANODE_PAIR(g_anode)->f1.f0);
+    __CPROVER_assert(g_phase <= 1 && inv == want && g_body_pre_set && g_body_pre == inv, "a vertex of the cycle is analysed from the join of the current posts of ALL its predecessors (strengthened by its assumption, if any), which is stored as its pre-invariant");
+    g_body_cp++; g_epoch++; return; }
   __CPROVER_assert(node == g_head, "the block analysed at a cycle is its head");
+  if (g_has_body) __CPROVER_assert(g_body_cp == g_cp_n, "the previous pass over the head was followed by a pass over the components");
   if (g_mode == 1)
     __CPROVER_assert(g_cp_n == 0 && inv == (g_pre_tab_set ? g_pre_tab : PRE0(node)), "vertex: analysed once, from its stored pre-invariant");
   else if (g_phase == 0)
@@ -86,8 +96,10 @@ void _ZNSt16_Sp_counted_baseILN9__gnu_cxx12_Lock_policyE2EE15_M_add_ref_copyEv(v
 void _ZNSt16_Sp_counted_baseILN9__gnu_cxx12_Lock_policyE2EE10_M_releaseEv(void *p){ }
 /* ---- the CFG: predecessors of the head are the scenario's array */
 struct anon_dea29fadec _ZNK4TCFG10prev_nodesEm(TCFG *cfg, uint64_t n){
-  __CPROVER_assert(n == g_head, "predecessors are asked of the cycle head");
-  struct anon_dea29fadec r; r.f0 = g_preds; r.f1 = g_preds + g_np; return r; }
+  struct anon_dea29fadec r;
+  if (g_has_body && n == g_body && n != g_head) { r.f0 = g_bp; r.f1 = g_bp + g_nbp; return r; }
+  __CPROVER_assert(n == g_head, "predecessors are asked of the blocks being visited only");
+  r.f0 = g_preds; r.f1 = g_preds + g_np; return r; }
 /* ---- ASSUMED: std::unordered_map<label,GV>::find (assumption map) is lookup in the finite map { g_akey -> *g_anode } */
 ANODE *_ZNKSt13unordered_mapIm2GVSt4hashImESt8equal_toImESaISt4pairIKmS0_EEE4findERS6_(AMAP *m, uint64_t *key){
   return (*key == g_akey) ? g_anode : (ANODE *)0; }
